@@ -65,9 +65,9 @@ def check(prog, rep):
     if not mins or not lps:
         raise AnalysisError("minimize / linprog call sites not found (subject vanished)")
     for fi, call in mins:
-        _check_minimize(prog, rep, fi, call)
+        rep.section(_check_minimize, prog, rep, fi, call)
     for fi, call in lps:
-        _check_linprog(prog, rep, fi, call)
+        rep.section(_check_linprog, prog, rep, fi, call)
     rep.expect_min("R06.1", 2)
     rep.expect_min("R06.2", 4)
     rep.expect_min("R06.3", 3)
